@@ -13,9 +13,12 @@ Record parser := mkParser {
 }.
 
 (* LLParser.__init__ for plain productions whose symbols are all known
-   (the GrammarError checks of _verify_grammar_structure_part1 are outside the model) *)
+   (the GrammarError checks of _verify_grammar_structure_part1 are outside the model).
+   The constructor's two name assertions come first: no terminal and not the start
+   symbol may contain '__' (reserved for helper symbols). *)
 Definition build (ug : list (sym * list (list sym))) (terminals : list sym) (smart : bool) (start : sym)
   : res parser :=
+  if existsb has_dunder terminals || has_dunder start then Err AssertErr else
   bind (factorize ug terminals smart) (fun '(g, sfxs) =>
     let terms := terminals ++ [END_TOKEN] in
     let T := make_tables g terms start in
